@@ -28,7 +28,19 @@ def lst(xs):
 
 
 def rust_str(s: str) -> str:
-    """A Rust string literal denoting exactly `s`."""
+    """A Rust string literal denoting exactly `s`; the spelling (escapes / literal UTF-8 / raw string) varies with the
+    content's hash so that every corpus writes its literals in all three ways."""
+    import zlib
+    form = zlib.crc32(s.encode('utf-8', 'surrogatepass')) % 5
+    plain = all(0x20 <= ord(ch) < 0x7f or ord(ch) >= 0xa0 for ch in s)
+    if form == 3 and plain:
+        n = 0
+        while '"' + '#' * n in s:
+            n += 1
+        if n or '\\' in s or '"' in s or form == 3:
+            return 'r%s"%s"%s' % ('#' * n, s, '#' * n)
+    if form == 4 and plain:
+        return '"%s"' % s.replace('\\', '\\\\').replace('"', '\\"')
     out = ['"']
     for ch in s:
         o = ord(ch)
